@@ -3,7 +3,9 @@ package main
 import (
 	"encoding/binary"
 	"encoding/json"
+	"errors"
 	"flag"
+	"time"
 
 	"github.com/jcmturner/gokrb5/v8/keytab"
 	"github.com/jcmturner/gokrb5/v8/types"
@@ -55,15 +57,20 @@ func cmdC14(args []string) error {
 		var kt, kt2 keytab.Keytab
 		var e1, e2, e3 error
 		var re []byte
-		line["panic"] = catch(func() {
-			e1 = kt.Unmarshal(img)
-			if e1 == nil {
-				re, e2 = kt.Marshal()
-				if e2 == nil {
-					e3 = kt2.Unmarshal(re)
+		pn := catchT(10*time.Second, func() {
+			var a, b keytab.Keytab
+			var x1, x2, x3 error
+			var r []byte
+			x1 = a.Unmarshal(img)
+			if x1 == nil {
+				r, x2 = a.Marshal()
+				if x2 == nil {
+					x3 = b.Unmarshal(r)
 				}
 			}
+			kt, kt2, e1, e2, e3, re = a, b, x1, x2, x3, r
 		})
+		line["panic"] = pn
 		line["err"] = e1 != nil
 		line["err2"] = e2 != nil || e3 != nil
 		line["parsed"] = projKeytab(&kt)
@@ -103,7 +110,15 @@ func cmdC14(args []string) error {
 			return err
 		}
 		var kt keytab.Keytab
-		if err := kt.Unmarshal(unhx(m.Image)); err != nil {
+		var err error
+		if pn := catchT(10*time.Second, func() {
+			var a keytab.Keytab
+			x := a.Unmarshal(unhx(m.Image))
+			kt, err = a, x
+		}); pn != "" {
+			err = errors.New(pn)
+		}
+		if err != nil {
 			tw.emit(map[string]interface{}{"ev": "lookup", "kt": m.Kt, "q": qraw[0], "err": true, "got": 0, "gotKvno": 0, "panic": "keytab image did not parse: " + err.Error()})
 			return nil
 		}
